@@ -391,6 +391,81 @@ template <class P> static void caseQuatCtor(verif::Run& run, const std::vector<R
     run.outcome(verif::hashPod(a.asVec4()));
 }
 
+// ---------------------------------------------------------------- section E2: the Quaternion class on NON-canonical input
+// Rotation::convertRotationToAngleAxis only ever feeds canonical quaternions (q0 >= 0) to
+// Quaternion_::convertQuaternionToAngleAxis, so its `angle > Pi` branch is reached only when the class is used
+// directly: negated quaternions, products, quaternions built by the normalising constructors.  Both q and -q describe
+// the same rotation, so the (angle, axis) pair must reproduce the matrix of q -- references in long double only.
+template <class P> static void checkQuatAngleAxis(verif::Run& run, const Quaternion_<P>& Q, const Where& W, const char* cls) {
+    const std::string t = std::string(".") + Prec<P>::tag();
+    const double tol = TOL<P>();
+    const P pi = NTraits<P>::getPi();
+    const M3 RQ = ref::fromQuat(Q[0], Q[1], Q[2], Q[3]);
+    run.count(std::string("quaternion-angle-axis-input") + t + (Q[0] < 0 || (Q[0] == 0 && std::signbit(Q[0])) ? ":negative-scalar-part" : ":canonical"));
+    Vec<4, P> aa = Q.convertQuaternionToAngleAxis();
+    run.expect(aa[0] > -pi && aa[0] <= pi, NM("quaternion-angle-axis-canonical-range") + "/" + cls, [&] { return fmt("angle=%.17g outside (-pi,pi] at ", (double)aa[0]) + W.s; }, W.r());
+    const V3 ax = ref::vec(aa[1], aa[2], aa[3]);
+    run.residual(NM("quaternion-angle-axis-unit-axis"), (double)fabsl(ref::dot(ax, ax) - 1), tol, W.w(), W.r(), cls);
+    // the converted pair is the rotation of q (textbook Rodrigues vs textbook quaternion matrix)
+    const M3 Raa = ref::rodrigues((LD)aa[0], ax);
+    bool ok = run.residual(NM("quaternion-angle-axis-noncanonical"), (double)ref::maxAbsDiff(Raa, RQ), tol, W.w(), W.r(), cls);
+    // and the library's own constructors agree: Rotation(q) == Rotation(angle, axis)
+    Rotation_<P> Rl(Q), Ra(aa[0], Vec<3, P>(aa[1], aa[2], aa[3]));
+    run.residual(NM("quaternion-angle-axis-noncanonical-library-matrices"), (double)ref::maxAbsDiff(ref::toM3(Rl), ref::toM3(Ra)), tol, W.w(), W.r(), cls);
+    // back to a quaternion: canonical, same rotation, equal to +-q (the sign that makes the scalar part non-negative)
+    Quaternion_<P> qa; qa.setQuaternionFromAngleAxis(aa);
+    Quaternion_<P> qb; qb.setQuaternionFromAngleAxis(Vec<4, P>(aa[0], 3 * aa[1], 3 * aa[2], 3 * aa[3]));   // non-unit axis
+    Quaternion_<P> qc; qc.setQuaternionFromAngleAxis(aa[0], UnitVec<P, 1>(Vec<3, P>(aa[1], aa[2], aa[3])));
+    run.expect(qa[0] >= 0 && qb[0] >= 0 && qc[0] >= 0, NM("quaternion-from-angle-axis-canonical") + "/" + cls, [&] { return "q0 < 0 at " + W.s; }, W.r());
+    LD worst = 0;
+    for (const Quaternion_<P>* q : {&qa, &qb, &qc}) {
+        worst = fmaxl(worst, ref::maxAbsDiff(ref::fromQuat((*q)[0], (*q)[1], (*q)[2], (*q)[3]), RQ));
+        LD dp = 0, dm = 0;
+        for (int i = 0; i < 4; ++i) { dp = fmaxl(dp, fabsl((LD)(*q)[i] - (LD)Q[i])); dm = fmaxl(dm, fabsl((LD)(*q)[i] + (LD)Q[i])); }
+        // tiny rotations are reported as "no rotation" -> q = [1 0 0 0]; both are within tol of +-Q at matrix level only
+        if (fabsl((LD)Q[0]) > 1e-3L) worst = fmaxl(worst, Q[0] > 0 ? dp : dm); else worst = fmaxl(worst, fminl(dp, dm));
+    }
+    run.residual(NM("quaternion-angle-axis-roundtrip"), (double)worst, tol, W.w(), W.r(), cls);
+    // -q is the same rotation: its angle-axis pair gives the same matrix
+    Quaternion_<P> N(Vec<4, P>(-Q.asVec4()), true);
+    Vec<4, P> an = N.convertQuaternionToAngleAxis();
+    run.residual(NM("quaternion-negated-same-angle-axis-rotation"), (double)ref::maxAbsDiff(ref::rodrigues((LD)an[0], ref::vec(an[1], an[2], an[3])), RQ), tol, W.w(), W.r(), cls);
+    if (run.verbose) printf("%s [%s]\n  q = (%.17g, %.17g, %.17g, %.17g)\n  angle-axis = (%.17g; %.17g, %.17g, %.17g)  %s\n  R(q) = %s\n  R(angle,axis) = %s\n", W.s.c_str(), cls, (double)Q[0], (double)Q[1], (double)Q[2], (double)Q[3],
+                            (double)aa[0], (double)aa[1], (double)aa[2], (double)aa[3], ok ? "ok" : "VIOLATION", ref::str(RQ).c_str(), ref::str(Raa).c_str());
+    run.outcome(verif::hashPod(aa));
+}
+// pairs of the rotation set: the member itself, its negative, the Hamilton product and the negated product
+template <class P> static void caseQuatNonCanonical(verif::Run& run, const std::vector<Rotation_<P>>& S, int i, int j) {
+    Where W; W.hdr = run.replayHeader(); W.s = fmt("P=%s quaternions of rotation-set members (%d, %d)", Prec<P>::tag(), i, j);
+    run.evaluationDistinct(true);
+    Quaternion_<P> q1 = S[i].convertRotationToQuaternion(), q2 = S[j].convertRotationToQuaternion();
+    Quaternion_<P> n1(Vec<4, P>(-q1.asVec4()), true);
+    Quaternion_<P> pr = q1 * q2, pn = n1 * q2, np(Vec<4, P>(-pr.asVec4()), true);
+    if (j == 0) {
+        checkQuatAngleAxis<P>(run, q1, W, "member");
+        checkQuatAngleAxis<P>(run, n1, W, "negated-member");
+        // the normalising constructors keep the sign of the scalar part
+        Quaternion_<P> c4(-2 * q1[0], -2 * q1[1], -2 * q1[2], -2 * q1[3]), cv(Vec<4, P>(q1.asVec4() * P(-0.5)));
+        checkQuatAngleAxis<P>(run, c4, W, "normalising-ctor-of-negative");
+        checkQuatAngleAxis<P>(run, cv, W, "normalising-ctor-of-negative");
+    }
+    checkQuatAngleAxis<P>(run, pr, W, "product");
+    checkQuatAngleAxis<P>(run, pn, W, "product-with-negated-factor");
+    checkQuatAngleAxis<P>(run, np, W, "negated-product");
+}
+// angles beyond +-pi about the lattice directions: set -> convert -> matrix, for the quaternion and its negative
+template <class P> static void caseQuatWideAngle(verif::Run& run, double d, const V3& dir) {
+    const P a = (P)d;
+    const UnitVec<P, 1> u(Vec<3, P>((P)dir[0], (P)dir[1], (P)dir[2]));
+    Where W; W.hdr = run.replayHeader(); W.s = fmt("P=%s wide angle=%.17g axis=(%.9g, %.9g, %.9g)", Prec<P>::tag(), d, (double)u[0], (double)u[1], (double)u[2]);
+    run.evaluationDistinct(true);
+    Quaternion_<P> q; q.setQuaternionFromAngleAxis(a, u);
+    run.residual(NM("quaternion-from-wide-angle-vs-rodrigues"), (double)ref::maxAbsDiff(ref::fromQuat(q[0], q[1], q[2], q[3]), ref::rodrigues((LD)a, ref::toV3(u))), TOL<P>() * (1 + std::abs(d)), W.w(), W.r());
+    run.expect(q[0] >= 0, NM("quaternion-from-angle-axis-canonical") + "/wide-angle", [&] { return "q0 < 0 at " + W.s; }, W.r());
+    checkQuatAngleAxis<P>(run, q, W, "wide-angle");
+    checkQuatAngleAxis<P>(run, Quaternion_<P>(Vec<4, P>(-q.asVec4()), true), W, "negated-wide-angle");
+}
+
 // ---------------------------------------------------------------- section F: one-axis / two-axes construction
 template <class P> static void caseTwoAxes(verif::Run& run, int xi, int xj, const V3& ud, const V3& vd, const char* vname) {
     const std::string t = std::string(".") + Prec<P>::tag();
@@ -688,6 +763,11 @@ template <class P> static void runAll(verif::Run& run) {
     {   // E
         run.parallel(NM("quatpair"), (int64_t)nS * nS, [&](int64_t idx) { caseQuatPair<P>(run, S, (int)(idx / nS), (int)(idx % nS)); });
         run.parallel(NM("quatctor"), (int64_t)nS * 7, [&](int64_t idx) { caseQuatCtor<P>(run, S, (int)(idx / 7), (int)(idx % 7)); });
+        run.parallel(NM("quatnoncanon"), (int64_t)nS * nS, [&](int64_t idx) { caseQuatNonCanonical<P>(run, S, (int)(idx / nS), (int)(idx % nS)); });
+        const P e = (P)Prec<P>::angEps(), pi = NTraits<P>::getPi();
+        const std::vector<double> WIDE = {(double)(pi + e), (double)-(pi + e), 3.5, -4.0, 5.0, (double)(2 * pi - e), (double)-(2 * pi - e), (double)(2 * pi), 6.6, -7.0, (double)(3 * pi), 10.0, (double)TH[1], (double)(pi - e)};
+        verif::Odometer ow; ow.dim("a", (int64_t)WIDE.size()); ow.dim("dir", 26);
+        run.parallel(NM("quatwide"), ow.size(), [&](int64_t idx) { auto d = ow.digits(idx); caseQuatWideAngle<P>(run, WIDE[d[0]], L[d[1]]); });
     }
     {   // F
         struct VV { V3 v; std::string name; };
